@@ -10,6 +10,10 @@ H = [
  ('h5', ['C01', 'C05'], 'src/DHLLDV/DHLLDV_framework.py', lambda s: s.replace("    if Erhg_obj[regime] < Erhg_obj['Ho']:\n        regime = 'Ho'\n", "    if Erhg_obj['Ho'] > Erhg_obj[regime]:\n        regime = 'Ho'\n"), 'a < b written as b > a in the selection'),
  ('h6', ['C07', 'C12'], 'src/DHLLDV/SlurryObj.py', lambda s: s.replace("class Slurry", "# harmless comment\nclass Slurry", 1), 'add a comment'),
  ('h7', ['C18'], 'src/DHLLDV/DHLLDV_Utils.py', lambda s: s.replace("                x1 = keys[index-1]\n                x2 = keys[index]\n", "                x2 = keys[index]\n                x1 = keys[index-1]\n"), 'swap two independent assignments in interpDict'),
+ ('h9', ['C20'], 'src/Wilson/Wilson_V50.py', lambda s: re.sub(r'\bff_this\b', 'ff_new', s), 'rename the loop variable ff_this -> ff_new in V50'),
+ ('h10', ['C11'], 'src/DHLLDV/PumpObj.py', lambda s: s.replace("            n_new *= (Pavail / P) ** 0.5\n", "            n_new = n_new * (Pavail / P) ** 0.5\n"), 'augmented assignment written out in both damped iterations'),
+ ('h11', ['C13', 'C19'], 'src/DHLLDV/stratified.py', lambda s: s.replace("    DH1 = 4*A1/(O1 + O12)   # Eqn 8.4-8\n", "    wetted = O1 + O12\n    DH1 = 4*A1/wetted   # Eqn 8.4-8\n", 1), 'introduce a local for the wetted perimeter in fb_pressure_loss'),
+ ('h12', ['C12', 'C07'], 'src/DHLLDV/SlurryObj.py', lambda s: s.replace("        if frac <= 0 or frac >= 1.0:\n", "        if frac >= 1.0 or frac <= 0:\n", 1), 'swap the operands of an or in get_dx'),
  ('h8', ['C20'], 'src/Wilson/Wilson_V50.py', lambda s: s.replace("    return max(0.25, min(1.7, _M))", "    clipped = min(1.7, _M)\n    return max(0.25, clipped)"), 'introduce a local in M'),
 ]
 for hid, props, rel, f, what in H:
